@@ -84,6 +84,10 @@ h("fub_drop_c2", ["C06", "C14", "C05"], QT, covers=["cover:drop_full"],
   what="FuturesUnorderedBounded<Fut>: drop from an arbitrary INV pre-state with two retained child wakers that outlive it (woken / dropped afterwards)",
   bounds="capacity 2")
 
+h("reach_fub_c2_s3", ["C01", "C02", "C12"], T, unwind=5, timeout=1200, covers=["cover:reach_sleeping", "cover:reach_two_pushes"],
+  what="history witness through the PUBLIC API: FuturesUnorderedBounded::new(2), then 3 symbolic operations out of {try_push, poll_next with a symbolic task waker, wake of a retained (possibly stale) child waker}; after every operation the state satisfies INV (I1..I4) - the invariant the step harnesses assume is not too strong",
+  bounds="capacity 2; 3 operations; <=1 self-wake")
+
 # ---------------------------------------------------------------- Layer S: the slot map by itself
 W_SM = ("PinSlotMap<u8>: ONE insert / remove / get with an arbitrary key (also out of range) from an arbitrary valid representation state "
         "(any occupancy, any free-list order); the representation invariant is re-established, no other slot is disturbed")
